@@ -429,10 +429,11 @@ package dbft
 //@   ensures implies(view > 0, sameHeight())
 //@   ensures @heap heapMono()
 //@   ensures [C10] @timer implies(aview(), timerOK())
-//@   loop 1: invariant wf() && slot() && self.ViewNumber >= view && implies(view > 0, sameHeight()) && heapMono() && inboxOK(msgs)
-//@   loop 2: invariant wf() && slot() && self.ViewNumber >= view && implies(view > 0, sameHeight()) && heapMono() && inboxOK(msgs)
-//@   loop 3: invariant wf() && slot() && self.ViewNumber >= view && implies(view > 0, sameHeight()) && heapMono() && inboxOK(msgs)
-//@   loop 4: invariant wf() && slot() && self.ViewNumber >= view && implies(view > 0, sameHeight()) && heapMono() && inboxOK(msgs)
+//@   ensures @arms gTimerArms >= old(gTimerArms)
+//@   loop 1: invariant wf() && slot() && self.ViewNumber >= view && implies(view > 0, sameHeight()) && heapMono() && inboxOK(msgs) && gTimerArms >= old(gTimerArms)
+//@   loop 2: invariant wf() && slot() && self.ViewNumber >= view && implies(view > 0, sameHeight()) && heapMono() && inboxOK(msgs) && gTimerArms >= old(gTimerArms)
+//@   loop 3: invariant wf() && slot() && self.ViewNumber >= view && implies(view > 0, sameHeight()) && heapMono() && inboxOK(msgs) && gTimerArms >= old(gTimerArms)
+//@   loop 4: invariant wf() && slot() && self.ViewNumber >= view && implies(view > 0, sameHeight()) && heapMono() && inboxOK(msgs) && gTimerArms >= old(gTimerArms)
 //@   wraps d.ViewNumber+1 unless aview()
 //@   wraps d.timePerBlock<<(d.ViewNumber+1) unless aview()
 //@   wraps timeout-diff unless aview()
